@@ -155,6 +155,9 @@ func ProofBobWCFromBytes(ec elliptic.Curve, bzs [][]byte) (*ProofBobWC, error) {
 	if err != nil {
 		return nil, err
 	}
+	if len(bzs) != ProofBobWCBytesParts {
+		return nil, fmt.Errorf("expected %d byte parts to construct ProofBobWC", ProofBobWCBytesParts)
+	}
 	point, err := crypto.NewECPoint(ec,
 		new(big.Int).SetBytes(bzs[10]),
 		new(big.Int).SetBytes(bzs[11]))
